@@ -55,7 +55,7 @@ def prepare(repo, companion_file, package="bitar"):
     return True
 
 
-def run_companion(repo, companion_file, tests, seed=1, cases=None, timeout=420, stride=None, package="bitar"):
+def run_companion(repo, companion_file, tests, seed=1, cases=None, timeout=420, stride=None, package="bitar", deep=False):
     """-> dict(status: ok|witness|error, witnesses: [...], cases: int, wall_s, cmd, out_tail)"""
     os.makedirs(WORK, exist_ok=True)
     t0 = time.time()
@@ -74,6 +74,8 @@ def run_companion(repo, companion_file, tests, seed=1, cases=None, timeout=420, 
             env["VERIF_COMPANION_CASES"] = str(cases)
         if stride:
             env["VERIF_COMPANION_STRIDE"] = str(stride)
+        if deep:
+            env["VERIF_COMPANION_DEEP"] = "1"      # thorough tier: larger grids (see each companion)
         name = "verif_" + os.path.splitext(os.path.basename(companion_file))[0]
         if package == "bitar":
             cmd = ["cargo", "test", "--offline", "-p", "bitar", "--features", "compress", "--test", name]
